@@ -353,23 +353,27 @@ class CallMixin:
   def wrap_key(self, m, k):
     return VInt(k) if m.ksort == z3.IntSort() else VOpaque(k)
 
+  def note_cond_test(self, kinds):
+    """The code has just tested (under the lock it holds) wake-up conditions of these kinds."""
+    self.seq += 1
+    self.last_cond_check = self.seq
+    for kd in kinds:
+      self.cond_checks[kd] = self.seq
+
   def queue_method(self, q, name, a, k):
     s = q.q.seq
     if name == 'get_nowait':
       if self.branch(s.n <= 0):
-        self.seq += 1
-        self.last_cond_check = self.seq
+        self.note_cond_test(['content'])
         self.raise_('queue.Empty')
       return self.list_method(q.q, 'popleft', [], {})
     if name == 'put_nowait':
       if self.branch(z3.And(q.cap > 0, s.n >= q.cap)):
-        self.seq += 1
-        self.last_cond_check = self.seq
+        self.note_cond_test(['content'])
         self.raise_('queue.Full')
       return self.list_method(q.q, 'append', [a[0]], {})
     if name == 'empty':
-      self.seq += 1
-      self.last_cond_check = self.seq
+      self.note_cond_test(['content'])
       return VBool(s.n <= 0)
     if name == 'qsize':
       return VInt(s.n)
@@ -453,8 +457,11 @@ class CallMixin:
       if lk.recheck and not self.spec_mode:
         # monitor rule (no lost wake-up): the condition waited for was tested after this lock was last
         # released - otherwise a notification sent in between is missed
-        self.oblige(f'{self.cur_name}/wait-after-recheck[{lk.name}]', z3.BoolVal(self.last_cond_check > lk.last_release),
-                    'monitor-discipline', {'text': f'the condition is re-tested after the last release of {lk.name} and before wait()'})
+        kinds = lk.recheck if isinstance(lk.recheck, (set, frozenset, list, tuple)) else ['content']
+        for kd in sorted(kinds):
+          self.oblige(f'{self.cur_name}/wait-after-recheck[{lk.name}:{kd}]', z3.BoolVal(self.cond_checks.get(kd, 0) > lk.last_release),
+                      'monitor-discipline', {'text': f'the wake-up condition "{kd}" is re-tested after the last release of {lk.name} and before wait() '
+                                                     '(a notification sent while the lock was released is otherwise lost)'})
       self.on_wait(lk)
       ok = self.fresh_bool('wait_ok')
       tmo = k.get('timeout', a[0] if a else NONE)
